@@ -884,9 +884,12 @@ Theorem satisfies_model_output_proved a m :
   (m_nested_pkg m = true \/ no_foreign_nested a = true) ->
   (m_diamond m = true \/ no_diamond_below a = true) ->
   (m_grant_inh m = true \/ grant_cols_own a = true) ->
-  exists d, compile a m = Some d /\ satisfies (Trace a (render a) (Compiled d true true)) = true.
+  (m_direct_anc m = true \/ no_indirect_anc a = true) ->
+  exists d, compile a m = Some d /\ satisfies (Trace a (render a) (Compiled d true true (direct_anc_shown a m))) = true.
 Proof.
-  intros Hwf Hc Hn Hv Ha Hrp Hri Hd Hnp Hdm Hgi. exists (compile_items a m).
+  intros Hwf Hc Hn Hv Ha Hrp Hri Hd Hnp Hdm Hgi Hda. exists (compile_items a m).
+  assert (Hds : direct_anc_shown a m = true) by (unfold direct_anc_shown; apply orb_true_iff; tauto).
+  rewrite Hds.
   pose proof (go_vs_ideal_proved a m Hc Hn Hv Ha Hd) as HF.
   destruct (wf_parts a Hwf) as (Hkeys & _ & Hu).
   assert (Hres : resolves_like_spec a m = true).
@@ -901,7 +904,7 @@ Proof.
     + rewrite <- (Forall2_keys _ _ HF). auto.
 Qed.
 
-Ltac go_flag := unfold Go; cbn [m_uniq_per_type m_nested_inherit m_view_refs m_acl_repeat m_res_pkg m_res_inh m_desc_refs m_nested_pkg m_diamond m_grant_inh];
+Ltac go_flag := unfold Go; cbn [m_uniq_per_type m_nested_inherit m_view_refs m_acl_repeat m_res_pkg m_res_inh m_desc_refs m_nested_pkg m_diamond m_grant_inh m_direct_anc];
   repeat match goal with H : _ = true |- _ => rewrite H; clear H end; reflexivity.
 
 (* the link theorem for the compiler as it is: no hypothesis on the schema beyond well-formedness,
@@ -911,10 +914,11 @@ Theorem go_meets_spec_proved :
   parser_inherited_grants_once = true -> parser_lookup_respects_package = true -> parser_inherits_in_own_package = true ->
   parser_descriptor_refs_analysed = true ->
   parser_inherited_nested_in_own_package = true -> parser_diamond_below_heir_accepted = true -> parser_grant_inherited_columns = true ->
+  parser_ancestors_direct = true ->
   forall a, wf a = true ->
-  exists d, compile a Go = Some d /\ satisfies (Trace a (render a) (Compiled d true true)) = true.
+  exists d, compile a Go = Some d /\ satisfies (Trace a (render a) (Compiled d true true (direct_anc_shown a Go))) = true.
 Proof.
-  intros H1 H2 H3 H4 H5 H6 H7 H8 H9 H10 a Hwf. apply (satisfies_model_output_proved a Go Hwf); left; go_flag.
+  intros H1 H2 H3 H4 H5 H6 H7 H8 H9 H10 H11 a Hwf. apply (satisfies_model_output_proved a Go Hwf); left; go_flag.
 Qed.
 
 (* the same while some repairs are missing: the schema avoids the shapes the missing ones are about *)
@@ -928,19 +932,21 @@ Theorem go_meets_spec_within_proved :
   (parser_inherited_nested_in_own_package = true \/ no_foreign_nested a = true) ->
   (parser_diamond_below_heir_accepted = true \/ no_diamond_below a = true) ->
   (parser_grant_inherited_columns = true \/ grant_cols_own a = true) ->
-  exists d, compile a Go = Some d /\ satisfies (Trace a (render a) (Compiled d true true)) = true.
+  (parser_ancestors_direct = true \/ no_indirect_anc a = true) ->
+  exists d, compile a Go = Some d /\ satisfies (Trace a (render a) (Compiled d true true (direct_anc_shown a Go))) = true.
 Proof.
-  intros H1 H2 H3 a Hwf H4 H5 H6 H7 H8 H9 H10. apply (satisfies_model_output_proved a Go Hwf).
-  - left; clear H4 H5 H6 H7 H8 H9 H10; go_flag.
-  - left; clear H4 H5 H6 H7 H8 H9 H10; go_flag.
-  - left; clear H4 H5 H6 H7 H8 H9 H10; go_flag.
-  - destruct H4 as [H4 | H4]; [left; clear H5 H6 H7 H8 H9 H10; go_flag | right; auto].
-  - destruct H5 as [H5 | H5]; [left; clear H4 H6 H7 H8 H9 H10; go_flag | right; auto].
-  - destruct H6 as [H6 | H6]; [left; clear H4 H5 H7 H8 H9 H10; go_flag | right; auto].
-  - destruct H7 as [H7 | H7]; [left; clear H4 H5 H6 H8 H9 H10; go_flag | right; auto].
-  - destruct H8 as [H8 | H8]; [left; clear H4 H5 H6 H7 H9 H10; go_flag | right; auto].
-  - destruct H9 as [H9 | H9]; [left; clear H4 H5 H6 H7 H8 H10; go_flag | right; auto].
-  - destruct H10 as [H10 | H10]; [left; clear H4 H5 H6 H7 H8 H9; go_flag | right; auto].
+  intros H1 H2 H3 a Hwf H4 H5 H6 H7 H8 H9 H10 H11. apply (satisfies_model_output_proved a Go Hwf).
+  - left; clear H4 H5 H6 H7 H8 H9 H10 H11; go_flag.
+  - left; clear H4 H5 H6 H7 H8 H9 H10 H11; go_flag.
+  - left; clear H4 H5 H6 H7 H8 H9 H10 H11; go_flag.
+  - destruct H4 as [H4 | H4]; [left; clear H5 H6 H7 H8 H9 H10 H11; go_flag | right; auto].
+  - destruct H5 as [H5 | H5]; [left; clear H4 H6 H7 H8 H9 H10 H11; go_flag | right; auto].
+  - destruct H6 as [H6 | H6]; [left; clear H4 H5 H7 H8 H9 H10 H11; go_flag | right; auto].
+  - destruct H7 as [H7 | H7]; [left; clear H4 H5 H6 H8 H9 H10 H11; go_flag | right; auto].
+  - destruct H8 as [H8 | H8]; [left; clear H4 H5 H6 H7 H9 H10 H11; go_flag | right; auto].
+  - destruct H9 as [H9 | H9]; [left; clear H4 H5 H6 H7 H8 H10 H11; go_flag | right; auto].
+  - destruct H10 as [H10 | H10]; [left; clear H4 H5 H6 H7 H8 H9 H11; go_flag | right; auto].
+  - destruct H11 as [H11 | H11]; [left; clear H4 H5 H6 H7 H8 H9 H10; go_flag | right; auto].
 Qed.
 
 Theorem go_item_for_item_proved :
